@@ -64,16 +64,14 @@ func (core *JApiCore) next(lexeme scanner.Lexeme) *jerr.JApiError {
 		return core.processParameter(lexeme)
 
 	case scanner.Annotation:
-		core.processAnnotation(lexeme)
-		return nil
+		return core.processAnnotation(lexeme)
 
 	case scanner.Schema, scanner.Text, scanner.Json, scanner.Enum:
 		core.processBody(lexeme)
 		return nil
 
 	case scanner.ContextExplicitOpening:
-		core.processContextBegin()
-		return nil
+		return core.processContextBegin(lexeme)
 
 	case scanner.ContextExplicitClosing:
 		return core.processContextEnd()
@@ -99,22 +97,33 @@ func (core *JApiCore) processKeyword(lexeme scanner.Lexeme) *jerr.JApiError {
 }
 
 func (core *JApiCore) processParameter(lexeme scanner.Lexeme) *jerr.JApiError {
+	if core.currentDirective == nil {
+		return core.japiError(jerr.ThereIsNoDirectiveForTheLexeme, lexeme.Begin())
+	}
 	if err := core.currentDirective.AppendParameter(lexeme.Value()); err != nil {
 		return core.japiError(err.Error(), lexeme.Begin())
 	}
 	return nil
 }
 
-func (core *JApiCore) processAnnotation(lexeme scanner.Lexeme) {
+func (core *JApiCore) processAnnotation(lexeme scanner.Lexeme) *jerr.JApiError {
+	if core.currentDirective == nil {
+		return core.japiError(jerr.ThereIsNoDirectiveForTheLexeme, lexeme.Begin())
+	}
 	core.currentDirective.Annotation = catalog.Annotation(lexeme.Value().String())
+	return nil
 }
 
 func (core *JApiCore) processBody(lexeme scanner.Lexeme) {
 	core.currentDirective.BodyCoords = coordsFromLexeme(lexeme)
 }
 
-func (core *JApiCore) processContextBegin() {
+func (core *JApiCore) processContextBegin(lexeme scanner.Lexeme) *jerr.JApiError {
+	if core.currentDirective == nil {
+		return core.japiError(jerr.ThereIsNoDirectiveForTheLexeme, lexeme.Begin())
+	}
 	core.currentDirective.HasExplicitContext = true
+	return nil
 }
 
 func (core *JApiCore) closeLastExplicitContext() *jerr.JApiError {
